@@ -77,11 +77,17 @@ class ResolveSpec(Spec):
         mi = obs["model_input"]
         return f"sreport (resolve {coq(mi['graph'])} {coq(mi['store'])})"
 
-    def project(self, rep, obs):
+    def parse(self, text):
+        return O.Report(text)
+
+    def project(self, rep, obs, model=None):
         """what of the report must agree between model and implementation"""
         raise NotImplementedError
 
     def oracle(self, case, obs, rep):
+        return []
+
+    def post_oracle(self, bycase, obs):
         return []
 
     def nontrivial(self, case, obs, rep):
@@ -124,7 +130,7 @@ class ResolveSpec(Spec):
                 res["mismatches"].append({"id": cid, "why": f"implementation {o['status']}: " + str(o.get("panic") or o.get("error"))[:300],
                                           "case": gen.strip_struct(case)})
                 continue
-            rep = O.Report(o["obs"])
+            rep = self.parse(o["obs"])
             classes[self.classify(case, o, rep)] += 1
             pi = self.project(rep, o)
             if model_ok:
@@ -133,7 +139,7 @@ class ResolveSpec(Spec):
                     res["mismatches"].append({"id": cid, "why": "model evaluation failed: " + m[:300], "case": gen.strip_struct(case)})
                 else:
                     compared += 1
-                    pm = self.project(O.Report(m), o)
+                    pm = self.project(self.parse(m), o, model=m)
                     if pm != pi:
                         res["mismatches"].append({"id": cid, "why": "projection differs", "impl": pi, "model": pm,
                                                   "case": gen.strip_struct(case)})
@@ -151,6 +157,8 @@ class ResolveSpec(Spec):
             if len(res["samples"]) < 3 and not cid.startswith("finding-"):
                 res["samples"].append({"id": cid, "graph": case["graph"], "store": case["store"], "mode": case.get("mode"),
                                        "observation": o["obs"][:600]})
+        for what in self.post_oracle(bycase, obs):
+            res["oracle_failures"].append(what)
         for fid, c, still in finds:
             o = obs.get(c["id"])
             if o and still(o):
@@ -193,7 +201,7 @@ class C01(ResolveSpec):
     projection_doc = "conclusion kind; requirement vector; for every third-party node and criterion whether the search succeeded"
     assumptions = ["criteria indices in the generated stores are defined (validated store); see C15 for the rest"]
 
-    def project(self, rep, o):
+    def project(self, rep, o, model=None):
         ok = []
         for i, r in enumerate(rep.results):
             if r[0] == "s":
@@ -241,7 +249,7 @@ class C02(ResolveSpec):
     projection_doc = "conclusion kind; failure list with criteria bitsets; has_errors; JSON report failures (names, versions, minimal criteria)"
     assumptions = ["no_fuel: the model's fuelled search does not run out of fuel (evaluated on every case; the implementation has no fuel)"]
 
-    def project(self, rep, o):
+    def project(self, rep, o, model=None):
         return {"kind": rep.kind, "failures": sorted(rep.failures().items()), "reqs": rep.reqs}
 
     def nontrivial(self, case, o, rep):
@@ -311,7 +319,7 @@ class C06(ResolveSpec):
             cases.append(c)
         return cases
 
-    def project(self, rep, o):
+    def project(self, rep, o, model=None):
         out = []
         for i, r in enumerate(rep.results):
             if r[0] == "s":
@@ -366,7 +374,7 @@ class C12(ResolveSpec):
             cases.append(c)
         return cases
 
-    def project(self, rep, o):
+    def project(self, rep, o, model=None):
         uses = []
         for (i, c) in required_pairs(rep, o):
             sr = rep.search(i, c)
@@ -403,7 +411,273 @@ class C12(ResolveSpec):
         return out
 
 
-REGISTRY = {c.pid: c for c in [C01, C02, C06, C12]}
+def rewrite_store(rng, store, how):
+    """metamorphic rewriting of every NON-violation criteria list"""
+    import copy
+    st = copy.deepcopy(store)
+
+    def rw(l):
+        if l is None:
+            return None
+        clo = set()
+        for c in l:
+            clo |= gen.py_closure(st, c)
+        if how == "closure":
+            out = sorted(clo)
+            rng.shuffle(out)
+            return out
+        if how == "minimal":
+            return gen.py_minimal_names(st, clo) if l else []
+        out = list(l) + ([rng.choice(l)] if l else [])
+        rng.shuffle(out)
+        return out
+
+    def files():
+        yield st
+        for f in st["lock"]["audits"].values():
+            yield f
+    for f in files():
+        for l in f.get("audits", {}).values():
+            for a in l:
+                if a["kind"] != "violation":
+                    a["criteria"] = rw(a["criteria"])
+        for l in f.get("wildcard_audits", {}).values():
+            for w in l:
+                w["criteria"] = rw(w["criteria"])
+        for l in f.get("trusted", {}).values():
+            for w in l:
+                w["criteria"] = rw(w["criteria"])
+    for l in st["exemptions"].values():
+        for e in l:
+            e["criteria"] = rw(e["criteria"])
+    for p in st["policy"].values():
+        for k in ("criteria", "dev-criteria"):
+            if p.get(k) is not None:
+                p[k] = rw(p[k])
+        for k in list(p.get("dependency-criteria", {})):
+            p["dependency-criteria"][k] = rw(p["dependency-criteria"][k])
+    if how == "ghost":
+        st["audits"].setdefault("zz-not-in-graph", []).append(
+            {"kind": "full", "version": "1.0.0", "criteria": ["safe-to-deploy"], "notes": "ghost"})
+        st["exemptions"].setdefault("zz-not-in-graph", []).append(
+            {"version": "1.0.0", "criteria": ["safe-to-run"], "suggest": True, "notes": "ghost"})
+    return st
+
+
+class C05(ResolveSpec):
+    pid = "C05"
+    level_text = ("Theorems C05_exact_meaning / C05_closure_is_least (the DFS of CriteriaMapper::new computes exactly the reflexive-"
+                  "transitive closure of the direct implications, for every table), C05_reorder_duplicate, C05_replace_by_closure, "
+                  "C05_replace_by_minimal, C05_minimal_has_no_implied_duplicates, C05_edges_use_closure: a written list denotes the "
+                  "union of the closures of its members and the audit graph reads lists only through that set. The verdict invariance "
+                  "itself is exercised metamorphically on the implementation (original vs rewritten stores).")
+    level_note = ("Closure algebra proved for the model's fuelled DFS (fuel n+1 shown sufficient). Verdict invariance across rewritten stores "
+                  "is a differential/metamorphic test, not a theorem. Violation-entry lists are excluded: rewriting them changes the "
+                  "verdict by design (book/src/algorithm.md) — recorded as known finding F-C05v.")
+    design_ref = "DESIGN.md §4 C05"
+    coq_files = ["Properties/C05.v"]
+    theorems = ["C05_exact_meaning", "C05_closure_is_least", "C05_reorder_duplicate", "C05_replace_by_closure",
+                "C05_replace_by_minimal", "C05_minimal_has_no_implied_duplicates", "C05_edges_use_closure"]
+    rule = ("criteria tables with 2-4 custom criteria (chains, diamonds, customs implying built-ins); every base store is paired with "
+            "rewritten stores (all non-violation lists replaced by their closure / minimal set / shuffled+duplicated; records for a "
+            "crate outside the graph added); non-trivial = the base store has a custom criterion with a non-empty implies list and a "
+            "verdict other than all-fail")
+    projection_doc = "implied-criteria set of every criterion; requirement vector; conclusion; failures; per pair search success"
+    quick_n = 60
+    thorough_n = 800
+
+    def gen_cases(self, rng, n):
+        out = []
+        for i in range(n):
+            base = gen.gen_resolve_case(rng, f"g{i}-base", ncustom=rng.choice([2, 3, 4]))
+            out.append(base)
+            for how in ("closure", "minimal", "shuffle", "ghost"):
+                v = dict(base)
+                v["id"] = f"g{i}-{how}"
+                v["store_struct"] = rewrite_store(rng, base["store_struct"], how)
+                out.append(gen.finalize(v))
+        return out
+
+    def model_expr(self, obs):
+        mi = obs["model_input"]
+        st = coq(mi["store"])
+        return (f"(let s := {st} in sp \"both\" [sreport (resolve {coq(mi['graph'])} s); "
+                f"sp \"implied\" (map (fun c => sN (closure (st_criteria s) c)) (nseq 0 (ct_len (st_criteria s))))])")
+
+    def parse(self, text):
+        e = vetlib.parse_sexp(text)
+        if e[0] == "both":
+            r = O.Report(e[1])
+            r.implied = [int(x) for x in e[2][1:]]
+            return r
+        return O.Report(e)
+
+    def project(self, rep, o, model=None):
+        implied = rep.implied if model is not None else [int(x) for x in o["extra"]["implied"]]
+        ok = [[i] + [1 if x[0] == "ok" else 0 for x in r[1:]] for i, r in enumerate(rep.results) if r[0] == "s"]
+        return {"implied": implied, "kind": rep.kind, "reqs": rep.reqs, "failures": sorted(rep.failures().items()), "ok": ok}
+
+    def nontrivial(self, case, o, rep):
+        return any(c.get("implies") for c in case["store_struct"]["criteria"].values()) and "(ok" in o["obs"]
+
+    def oracle(self, case, o, rep):
+        out = []
+        table = O.table_of(o["model_input"]["store"])
+        implied = [int(x) for x in o["extra"]["implied"]]
+        for c in range(O.ncrit(table)):
+            if implied[c] != O.bits(O.closure(table, c)):
+                out.append(f"criterion {o['tables']['criteria'][c]} is taken to mean {sorted(O.unbits(implied[c]))}, its implication closure is {sorted(O.closure(table, c))}")
+        return out
+
+    def post_oracle(self, bycase, obs):
+        out = []
+        groups = {}
+        for cid in obs:
+            if "-" in cid and cid.startswith("g"):
+                groups.setdefault(cid.split("-")[0], {})[cid.split("-", 1)[1]] = cid
+        for g, m in groups.items():
+            if "base" not in m or obs[m["base"]]["status"] != "ok":
+                continue
+            b = O.Report(obs[m["base"]]["obs"])
+            names_b = obs[m["base"]]["tables"]["nodes"]
+            vb = (b.kind, sorted((names_b[i], f) for i, f in b.failures().items()), len(b.conflicts()))
+            for how, cid in m.items():
+                if how == "base" or obs[cid]["status"] != "ok":
+                    if how != "base" and obs[cid]["status"] != obs[m["base"]]["status"]:
+                        out.append({"id": cid, "what": f"rewriting criteria lists ({how}) turned status ok into {obs[cid]['status']}",
+                                    "finding": None, "case": gen.strip_struct(bycase[cid])})
+                    continue
+                r = O.Report(obs[cid]["obs"])
+                names_r = obs[cid]["tables"]["nodes"]
+                vr = (r.kind, sorted((names_r[i], f) for i, f in r.failures().items()), len(r.conflicts()))
+                if vr != vb:
+                    out.append({"id": cid, "what": f"verdict changed when criteria lists were rewritten ({how}): {vb} -> {vr}",
+                                "finding": None, "case": gen.strip_struct(bycase[cid])})
+        return out
+
+
+import hist  # noqa: E402
+
+
+class HistorySpec(Spec):
+    """properties decided on command histories driven through the real cmd_*"""
+    quick_n = 60
+    thorough_n = 1500
+    oracle_fn = None
+    rule = ("seeded command histories (3-7 commands from check, check --locked, prune with every flag combination, regenerate "
+            "imports/exemptions/unpublished, certify, add-exemption, fmt) on generated graphs and stores with 0-2 peers and a mock "
+            "crates.io, the remote state mutating between steps (peer adds/revokes/changes audits, new published versions); every "
+            "command is run by the real cmd_* on a store directory; before/after each step the harness probes the verdict (unlocked "
+            "and --locked) and re-runs the command on a copy; every resolve/get_store_updates call made inside the real commands is "
+            "tapped and re-evaluated in the Coq model. non-trivial = a history with at least one store-writing command that succeeded")
+    projection_doc = ("for every tapped resolver call inside the real commands: verdict (kind, failures, requirement vector, "
+                      "classification) and the full StoreUpdates (as multisets) must equal the model's")
+
+    def model_modules_paths(self):
+        return ["ShowUpdate"]
+
+    def tap_relevant(self, t):
+        return True
+
+    def step_oracle(self, st):
+        return type(self).oracle_fn(st)
+
+    def step_nontrivial(self, st):
+        return st.outcome == "ok" and st.cls != "check-locked"
+
+    def findings(self):
+        return []
+
+    def gen_cases(self, rng, n):
+        return [gen.gen_history(rng, f"h{i}") for i in range(n)]
+
+    def run(self, rng, tier, work, model_ok=True, ncases=None, replay=None):
+        n = ncases or (self.quick_n if tier == "quick" else self.thorough_n)
+        if replay:
+            with open(replay) as f:
+                r = json.load(f)
+            cases = [r.get("case", r)]
+            cases[0].setdefault("id", "replay")
+        else:
+            cases = load_corpus(self.pid) + self.gen_cases(rng, n)
+        return hist.run_histories(self, cases, work, model_ok=model_ok)
+
+
+class C09(HistorySpec):
+    pid = "C09"
+    oracle_fn = staticmethod(hist.oracle_c09)
+    coq_files = ["Properties/C09.v"]
+    theorems = ["C09_failing_run_writes_nothing", "C09_required_local_audit_kept", "C09_required_imported_audit_kept",
+                "C09_required_wildcard_kept", "C09_required_publisher_kept"]
+    level_text = ("Theorems C09_required_*_kept (every entry a chosen certification path uses — local audit, imported audit, imported "
+                  "wildcard audit, publisher record — survives get_store_updates in every mode) and C09_failing_run_writes_nothing, "
+                  "about the model of get_store_updates / cmd_check whose update modes are re-read from main.rs on every run. PARTIAL: "
+                  "the end-to-end statement (the written store re-resolves to Success under --locked) is stated in Properties/C09.v but "
+                  "not yet proved; it is exercised by running the real `cargo vet --locked` on the files every successful unlocked check "
+                  "of every generated history wrote.")
+    level_note = ("Model = coq/Update.v + Commands.v; every get_store_updates/resolve call inside the real commands is tapped and "
+                  "compared with the model. TOML round-trip (C14) and the lock-freshness check of a locked load are exercised, not proved here.")
+    design_ref = "DESIGN.md §4 C09"
+    assumptions = ["mock network and mock crates.io stand in for peers and the registry", "today = 2023-01-01 (mock_now)"]
+
+    def step_nontrivial(self, st):
+        return st.cls == "check" and st.outcome == "ok"
+
+
+class C10(HistorySpec):
+    pid = "C10"
+    oracle_fn = staticmethod(hist.oracle_c10)
+    coq_files = ["Properties/C10.v"]
+    theorems = ["C10_regenerate_search_never_fails", "C10_prune_keeps_required_entries", "C10_failing_crate_keeps_stored_imports"]
+    level_text = ("Theorems C10_prune_keeps_required_entries (for all 8 flag combinations of prune, each category keeps the entries "
+                  "on chosen paths), C10_regenerate_search_never_fails (in RegenerateExemptions mode the path search cannot fail, from "
+                  "search_spec) and C10_failing_crate_keeps_stored_imports. PARTIAL: `vets s -> vets (k s)` is stated but not yet "
+                  "proved end to end; it is exercised on every history by probing the verdict before and after each real command.")
+    level_note = C09.level_note
+    design_ref = "DESIGN.md §4 C10"
+    assumptions = C09.assumptions
+
+    def step_nontrivial(self, st):
+        return st.outcome == "ok" and st.concl("pre_check") == "success" and st.cls not in ("check-locked",)
+
+
+class C11(HistorySpec):
+    pid = "C11"
+    oracle_fn = staticmethod(hist.oracle_c11)
+    coq_files = ["Properties/C11.v"]
+    theorems = ["C11_updates_shape", "C11_local_audits_only_removed", "C11_no_audits_flag", "C11_imported_audits_from_live",
+                "C11_imported_wildcards_from_live", "C11_publishers_from_live", "C11_unpublished_from_live",
+                "C11_exemptions_only_narrowed", "C11_no_exemptions_flag", "C11_modes_that_may_add_exemptions"]
+    level_text = ("Theorems about the model of get_store_updates, for every store, graph and update mode: local audits are only "
+                  "removed (untouched with --no-audits); every imports.lock entry written is an element of the live set with its "
+                  "freshness flag cleared; local wildcard audits and trusted entries are never part of an update; outside "
+                  "RegenerateExemptions every written exemption is an old one of the same version and suggest flag denoting a subset "
+                  "of the old criteria (equal with --no-exemptions), proved through soundness of the search (an exemption is recorded "
+                  "as required only for criteria its edge carries); and only init / regenerate exemptions use RegenerateExemptions "
+                  "(modes re-read from main.rs).")
+    level_note = ("as C09. What the user's own entry adds (certify, add-exemption, ...) is outside the update model and is checked "
+                  "by the semantic-diff oracle on the real files around every command.")
+    design_ref = "DESIGN.md §4 C11"
+    assumptions = C09.assumptions
+
+
+class C13(HistorySpec):
+    pid = "C13"
+    oracle_fn = staticmethod(hist.oracle_c13)
+    coq_files = ["Properties/C13.v"]
+    theorems = ["C13_check_update_leaves_settled_store", "C13_locked_check_writes_the_store_it_read",
+                "C13_written_lists_are_canonical", "C13_check_keeps_exemption_meaning"]
+    level_text = ("Theorems: the check's own update leaves every local audit, imported audit, wildcard audit and publisher record of "
+                  "a settled store (nothing fresh) in place whatever paths are chosen; a --locked check writes back the store it read; "
+                  "written criteria lists are canonical (re-writing reproduces them); the check never narrows an exemption. "
+                  "`prune; prune` is NOT idempotent on the unchanged tree (known finding F-C13-prune, replayed every run). PARTIAL: "
+                  "byte-level idempotence of the files is exercised by re-running every real command on a copy, not proved.")
+    level_note = ("as C09; byte equality also depends on the TOML writer (C14).")
+    design_ref = "DESIGN.md §4 C13"
+    assumptions = C09.assumptions
+
+
+REGISTRY = {c.pid: c for c in [C01, C02, C05, C06, C09, C10, C11, C12, C13]}
 
 
 def get(pid):
